@@ -2,7 +2,7 @@
 from ..rules import dispatch, model, optimize
 
 EXPLANATION = (
-    "Static analysis: for the 4 registries the interpreted branch REG[i] and the compiled branch function_from_address(TYPE_REG, addrs[i]) use the same registry, index, address array (traced from get_function_addresses through the 4 unpacking sites into solve_one's parameters) and argument list, and every member has the signature's arity; every argument carrying an engine array is bound to the parameter named after that array at all 225 resolved call edges; no module-level mutable object is written by a function other than a registry's append-only register_*; no global statement, nondeterminism source or environment dependence in library code; mutable default arguments are only read/copied; solver constructors do not write the problem; init() re-creates everything it derives. Not run-to-run equality itself. Also: Solver.__init__ calls problem.init() on every path with a problem; no memoising decorator or annotated module-level cache; a difference whose left operand is read from an unsigned engine array is never tested against a negative value (int64 when compiled, wraps when interpreted); the wake-up table is accumulated over zeros. Round 3: a sort of the constraints skipped under a flag requires every mutator of the constraint list to reset the flag; no raise behind a function pointer (interpreted mode raises, compiled mode carries on); the address arrays reach solve_one from get_function_addresses() in the calling function. Round 4: no solver code stores into the problem object; a sort whose order is observable is stable in both modes; a sentinel is never stored into a narrower cell."
+    "Static analysis: for the 4 registries the interpreted branch REG[i] and the compiled branch function_from_address(TYPE_REG, addrs[i]) use the same registry, index, address array (traced from get_function_addresses through the 4 unpacking sites into solve_one's parameters) and argument list, and every member has the signature's arity; every argument carrying an engine array is bound to the parameter named after that array at all 225 resolved call edges; no module-level mutable object is written by a function other than a registry's append-only register_*; no global statement, nondeterminism source or environment dependence in library code; mutable default arguments are only read/copied; solver constructors do not write the problem; init() re-creates everything it derives. Not run-to-run equality itself. Also: Solver.__init__ calls problem.init() on every path with a problem; no memoising decorator or annotated module-level cache; a difference whose left operand is read from an unsigned engine array is never tested against a negative value (int64 when compiled, wraps when interpreted); the wake-up table is accumulated over zeros. Round 3: a sort of the constraints skipped under a flag requires every mutator of the constraint list to reset the flag; no raise behind a function pointer (interpreted mode raises, compiled mode carries on); the address arrays reach solve_one from get_function_addresses() in the calling function. Round 4: no solver code stores into the problem object; a sort whose order is observable is stable in both modes; a sentinel is never stored into a narrower cell. Round 6: the solver's configuration arrays are private copies of the caller's (np.asarray aliases); no bitwise complement of a scalar truth value in jitted code (~True is False when compiled, -2 when interpreted); no division by a possibly-zero quantity behind a function pointer (raises when compiled, inf / nan when interpreted)."
 )
 
 
